@@ -255,7 +255,50 @@ def only_error_from(ctx, inst, body, sw, label, what):
               None if not (bad or muts) else {"witness": R.witness(body, ps, r.get((bad + muts)[0]))})
 
 
+def check_valid(ctx):
+    """the two range-validity predicates that gate every release / insertion: bounds are exclusive-end against the device's
+    sector count, the data-area start is inclusive, empty ranges are refused (operands and strictness pinned)"""
+    from rules.common import pin_comparisons
+    inst = "C06.valid"
+    def dev(e):
+        return e.k == "bin" and e.extra == "Div" and e.has_field("FreeSpaceManager", "device_size") and e.has_const(name="FEOX_BLOCK_SIZE")
+    def is_arg(i):
+        return lambda e: e.k == "arg" and e.extra[0] == i
+    def fld(f):
+        return lambda e: e.k == "field" and e.extra[1] == f and e.a[0].k == "arg" and e.a[0].extra[0] == 2
+    DS = lambda e: e.k == "const" and e.has_const(name="FEOX_DATA_START_BLOCK")
+    b = ctx.fn("FreeSpaceManager::is_valid_sector_range", inst)
+    if b is not None:
+        def end(e):
+            return e.k == "field" and e.a and e.a[0].k == "downcast" and e.a[0].a and e.a[0].a[0].k == "call" and \
+                path_matches(e.a[0].a[0].extra, "checked_add") and is_arg(2)(e.a[0].a[0].a[0]) and is_arg(3)(e.a[0].a[0].a[1])
+        pin_comparisons(ctx, inst, b, [
+            ("Lt", is_arg(2), DS, "a range below the data area is refused (`start < FEOX_DATA_START_BLOCK`)"),
+            ("Eq", is_arg(3), lambda e: e.k == "const" and (e.extra or {}).get("val") == 0, "an empty range is refused"),
+            ("Lt", is_arg(2), dev, "a range starting at or past the device end is refused (`start >= device_sectors`)"),
+            ("Lt", dev, end, "the exclusive end start + count must not exceed the device's sector count (`end <= device_sectors`)"),
+        ])
+    b = ctx.fn("FreeSpaceManager::release_sectors", inst)
+    if b is not None:
+        pin_comparisons(ctx, inst, b, [
+            ("Lt", is_arg(2), DS, "release: the first data sector itself is releasable (`start < FEOX_DATA_START_BLOCK` refused, strict)"),
+            ("Eq", is_arg(3), lambda e: e.k == "const" and (e.extra or {}).get("val") == 0, "release: an empty range is refused"),
+        ])
+    b = ctx.fn("FreeSpaceManager::is_valid_free_space", inst)
+    if b is not None:
+        def end2(e):
+            return e.k == "bin" and e.extra == "Add" and fld("start")(e.a[0]) and fld("size")(e.a[1])
+        pin_comparisons(ctx, inst, b, [
+            ("Lt", fld("start"), DS, "a run below the data area is refused"),
+            ("Lt", fld("start"), dev, "a run starting at or past the device end is refused"),
+            ("Lt", dev, end2, "a run's exclusive end must not exceed the device's sector count"),
+        ])
+        sz = [n for n in b.calls() if R.call_matches(n.ev, "checked_add")]
+        ctx.check(len(sz) == 1, inst, "PIN", b.path, "start + size is overflow-checked", None)
+
+
 def check(ctx):
+    check_valid(ctx)
     check_pair(ctx)
     check_atomic(ctx)
     check_fit(ctx)
